@@ -391,3 +391,24 @@ def run(ctx):
         ctx.oblig("correspondence-early-late-statistic", nbad == 0, "%d mismatches of %d" % (nbad, len(meta)))
         stats["early_late_checks"] = len(meta)
     ctx.notes["input_distribution"] = stats
+
+
+_TB = [
+    "Coq 8.16.1 kernel: coqc full .vo build, vm_compute for model evaluation and closed decidable obligations; no native_compute",
+    "axioms (Print Assumptions): theorems not mentioning binary64 are closed under the global context; those that do depend on Flocq and through it on ClassicalDedekindReals.sig_forall_dec, ClassicalDedekindReals.sig_not_dec, FunctionalExtensionality.functional_extensionality_dep, Classical_Prop.classic (all Coq standard library)",
+    "hand-written model coq/model/Schedule.v (GlobalStrategy::new/adapt, ExternalTransformAdaptation::new/adapt, estimator windows, chain draw order) - tied to /repo only by the correspondence run",
+    "correspondence harness /verif/harness/src/bin/schedule.rs, hook accessors (cfg nuts_rs_verif) verif_schedule_state / verif_adapt_state, python glue tools/vlib.py, tools/props/schedule.py",
+    "not modelled: the step-size search and dual averaging internals (abstract state SS in C06_stepsize_frozen; see C07), libm, ChaCha8, faer",
+]
+TRUSTED = {"C06": _TB, "C09": _TB}
+ASSUMPTIONS = {
+    "C06": ["draws are numbered 0,1,2,... by the chain (checked by correspondence: Progress.draw)",
+            "jitter factor of each draw lies in [1-j, 1+j) (rand Uniform::new contract)",
+            "jitter = Some(0.0) is rejected by rand (EmptyRange) and is not generated; MCLMC presets are run with dim >= 2"],
+    "C09": ["is_good of a draw is derived from the reported index_in_trajectory / divergence flag exactly as DrawGradCollector does",
+            "low-rank estimator: the transformation id is not compared (an update may be refused by the finiteness guards)"],
+}
+RULE = {
+    "C06": "cases: fixed boundary corpus (6 presets x num_tune in {0,1,2,3,7,20}) then seeded random presets/num_tune/window fractions/frequencies/growth/method/jitter/fault regions; each case runs the real chain through the public API and the Coq model (vm_compute) on the logged good/rejected history; non-trivial = at least 2 draws, distinct by (preset, num_tune, options, good-history)",
+    "C09": "same case stream as C06; compared per draw: all 8 schedule state components (counts, window size, last_update, has_initial), tuning, transformation id (diagonal), and bit-exact hbar / Adam m to decide which acceptance statistic advanced the adaptation",
+}
